@@ -91,6 +91,51 @@ CHECKS = {
     note=TB, technique='Coq proofs; exhaustive small-scope correspondence', design='§7 C20'),
 }
 
+CHECKS.update({
+ 'C03': dict(
+    text='Machine-checked proof that for EVERY state satisfying the invariant and EVERY single-element mutator that the model rejects, the full '
+         'observation (all read views, mirrored indexes, time-series lookups) of the state left behind equals that of the input state '
+         '(failed_step_noop), with the stronger facts that all mutators except change_edge_type / replace_edge leave the state literally unchanged '
+         'and that a rejected add_edge leaves no implicitly created nodes; every error path is covered (cycle rollback, implicit-node clean-up, '
+         'restore of the original edge, removal of a half-built replacement node). Tied to the code by step-by-step correspondence on error-seeking '
+         'histories and by snapshotting the real graph before and after every raising call (cell coverage mutator x error class in the evidence).',
+    note=TB, technique='Coq proof of failure atomicity over all error paths + correspondence + before/after snapshots', design='§7 C03'),
+ 'C07': dict(
+    text='Machine-checked proof that the model of __eq__ (statement-by-statement transcription, with an error value where Python would raise) '
+         'never raises on states satisfying the invariant and returns true exactly when the canonical forms coincide (symmetric edge types oriented '
+         'by endpoint order), hence is reflexive, symmetric, transitive, independent of construction order, != is its negation, deep implies shallow; '
+         'same for Skeleton, Node, Edge. The list of direction-free edge types and the edge-type spellings are regenerated from the source and '
+         'proved equal to the modelled ones. Tied to the code by comparing 11 comparisons per pair on permuted rebuilds, single-edit neighbours and '
+         'independent histories, plus a structural predicate evaluated on the implementation.',
+    note=TB + 'Cross-class comparison is outside the property (same-class pairs only).',
+    technique='Coq proof of equality = canonical-form equality; correspondence on graph pairs', design='§7 C07'),
+ 'C14': dict(
+    text='Machine-checked proofs about the model of get_minimal_graph (loop as written: sorted edges, first-wins, one-orientation existence test): '
+         'on every consistent template graph it succeeds, has exactly one edge per template placed with destination at lag 0, keeps every variable, '
+         'adds nothing else, carries the attributes, is a fixed point, is minimal, and is_minimal is true exactly when the graph equals its minimal '
+         'graph; the boolean oracle c14_check is proved equivalent to the characterisation and is evaluated on the graph the IMPLEMENTATION returned, '
+         'for random template sets with partial/complete instantiation; model and implementation outputs are compared exactly (also on the raising inputs).',
+    note=TB + 'adjacency_matrices clause: compared with the implementation, general proof not closed (adj_matrices_statement).',
+    technique='Coq proofs of membership characterisation + oracle equivalence; correspondence on template graphs', design='§7 C14'),
+ 'C15': dict(
+    text='Machine-checked proofs that the model of extend_graph returns exactly the kept template copies over the window (None / 0 / include_all_parents '
+         'handled as in the code), the exact node set, and the corollaries (same parents up to a time shift, monotone in the window, acyclic minimal graph '
+         'extends to an acyclic graph by a (time, rank) argument, minimal graph of the result is the minimal graph of the input); the oracle c15_check is '
+         'proved equivalent and evaluated on every graph the implementation returned over a grid of windows.',
+    note=TB, technique='Coq proofs of membership characterisation + corollaries; correspondence over a window grid', design='§7 C15'),
+ 'C16': dict(
+    text='Machine-checked proofs that on consistent DAG inputs whose latest lag is 0 the model of get_stationary_graph contains the input, spans the window '
+         'with every variable at every lag, contains every template copy that fits, has the input\'s minimal graph, and that is_stationary_graph is true '
+         'exactly when the graph is a DAG equal to that graph and false on non-DAGs; c16_check and the iff are evaluated on the implementation outputs.',
+    note=TB + 'Not proved in general: stat_idem_statement (the result is itself stationary) and the oracle-to-Prop direction c16_check_statement; both are checked on every run by evaluation.',
+    technique='Coq proofs + oracle evaluation on implementation outputs', design='§7 C16'),
+ 'C17': dict(
+    text='Machine-checked proofs about the model of the (repaired) collapse loop: on every time-series DAG the call succeeds (only non-DAGs are refused), '
+         'there is exactly one node per variable, two variables are adjacent iff some edge joins them, directed iff all edges go one way, bidirected iff both '
+         'ways, no self edges; the oracle c17_check is proved equivalent and evaluated on the graph the implementation returned, on DAGs biased to feedback and cyclic summaries.',
+    note=TB, technique='Coq proofs of the characterisation + oracle equivalence; correspondence', design='§7 C17'),
+})
+
 
 def main():
     checks = []
